@@ -224,6 +224,17 @@ def build_harness():
         raise Broken("harness does not build against the current /repo (hooks on)", out[-3000:])
 
 
+CLI_BIN = os.path.join(BUILD, "cli_target", "debug", "normalizer")
+
+
+def build_cli():
+    """the `normalizer` binary of the CURRENT /repo (feature cli), offline, into /verif/_build/cli_target"""
+    rc, out = sh(["cargo", "build", "--offline", "--features", "cli", "--bin", "normalizer"], cwd=REPO, timeout=1700,
+                 env={"CARGO_TARGET_DIR": os.path.join(BUILD, "cli_target")})
+    if rc != 0 or not os.path.exists(CLI_BIN):
+        raise Broken("the normalizer binary does not build (feature cli)", out[-3000:])
+
+
 def run_harness(args, out_name, timeout=1700):
     os.makedirs(os.path.join(BUILD, "out"), exist_ok=True)
     outp = os.path.join(BUILD, "out", out_name)
